@@ -124,4 +124,12 @@ def goodB (o : ColOracle) (c : Column) : Bool :=
   dtypePayB c && oracleB o c && excl16B c && noRaiseB o c
 
 
+/-- no relation test whose source type contains the column raises on it (executable form of `GuardsOk`) -/
+def guardsOkB (o : ColOracle) (c : Column) : Bool :=
+  Ty.all.all fun src => Ty.all.all fun dst =>
+    match guard o src dst with
+    | some g => !containsB src c || isOkR (g c)
+    | none => true
+
+
 end V.Pd
